@@ -1,6 +1,6 @@
 """C04 - refinement never worsens the fit and respects bounds, symmetry and the box.
 
-Monitors: (i) OptimizeProxy on ``droplets.image_analysis.optimize`` observing the
+Monitors: (i) OptimizeProxy (dispatcher bound onto ``scipy.optimize.least_squares`` before the package is imported) observing the
 least-squares cost at start/end where it is produced; (ii) post-condition on
 ``refine_droplet`` with an image digest and a private copy of the candidate.
 Oracle: independent recomputation of the squared deviation over the *specified* fit region
@@ -382,6 +382,15 @@ def run(case, rec):
     if fitted and pc is not None and "x" in pc:
         fv, fr = float(pc["x"][-2]), float(pc["x"][-1])
         out_levels = (fv, fv + fr)
+    elif fitted:
+        # the fitted levels were not observable (solver reached some other way): use the levels
+        # that fit the returned shape best - the solver's own levels cannot do better, so this
+        # never demands more than the statement does
+        shape01 = np.asarray(res.get_phase_field(grid, vmin=0.0, vmax=1.0).data, float)[region]
+        A = np.stack([np.ones_like(shape01), shape01], axis=1)
+        sol, *_ = np.linalg.lstsq(A, data, rcond=None)
+        out_levels = (float(sol[0]), float(sol[0] + sol[1]))
+        rec.count("fitted_levels_not_observed:best_fit_levels_used")
     else:
         out_levels = (vmin, vmax)
     res_model = np.asarray(res.get_phase_field(grid, vmin=out_levels[0], vmax=out_levels[1]).data, float)[region]
